@@ -80,12 +80,27 @@ class CallGraph:
                 if c.generic in SPAWN_FNS or (c.callee in SPAWN_FNS):
                     for a in c.args[:1]:
                         t = o.of_operand(a)
-                        for s in subterms(t):
-                            if isinstance(s, tuple) and s:
-                                if s[0] == "call":
-                                    spawned_bbs.add(s[2])
-                                elif s[0] == "agg":
-                                    spawned_defs.add(s[1])
+                        # the spawned future itself: the top-level call (an `async fn` invoked in the argument position) or
+                        # closure/coroutine aggregate, through phis and wrapper aggregates — but not the calls that merely
+                        # computed its *arguments* (they ran synchronously in the spawning task)
+                        work = [t]
+                        seen_ = 0
+                        while work and seen_ < 64:
+                            s = work.pop()
+                            seen_ += 1
+                            if not (isinstance(s, tuple) and s):
+                                continue
+                            if s[0] == "call":
+                                spawned_bbs.add(s[2])
+                                callee_is_local = self.resolve(body, s[1]) is not None
+                                if not callee_is_local:
+                                    work.extend(s[3])      # a combinator (timeout(..), instrument(..), Box::pin(..)) wrapping the future
+                            elif s[0] == "agg":
+                                spawned_defs.add(s[1])
+                                if "{closure" not in str(s[1]):
+                                    work.extend(s[3])      # a wrapper struct around the future; a closure's captures are plain values
+                            elif s[0] == "phi":
+                                work.extend(s[1])
             # aggregates: closures / coroutines constructed here
             for bi in sorted(body.reachable()):
                 for st in body.blocks[bi]["stmts"]:
